@@ -1,3 +1,3 @@
 """names of the sidecar contract modules (z3-free; shared by the symbolic and the concrete side)"""
 CONTRACT_MODULES = ["detector_base", "election", "validation", "ddm", "eddm", "stepd", "page_hinkley", "cusum",
-                    "adwin", "lfr", "md3", "ensemble", "hdm", "kdq", "nndvi", "pcacd", "injection", "partitioners", "relational_scalar"]
+                    "adwin", "lfr", "md3", "ensemble", "hdm", "kdq", "nndvi", "pcacd", "injection", "partitioners", "kdqtree", "relational_scalar"]
